@@ -1,6 +1,7 @@
 package pkcs7
 
 import (
+	"bytes"
 	"crypto"
 	"crypto/rand"
 	"crypto/sha256"
@@ -12,7 +13,7 @@ import (
 
 var (
 	vsymC05Content = 65535 // content length bound
-	vsymC05Serial  = 4     // serial magnitude lengths: first n of {1, 2, 8, 20}
+	vsymC05Serial  = 4     // serial magnitude lengths: first n of {1, 20, 2, 8}
 	vsymC05RawLens = 3     // certificate sizes tried: first n of {5, 140, 300}
 )
 
@@ -123,7 +124,7 @@ func vInnerLen(el []byte) int {
 }
 
 func vSerial() []byte {
-	lens := []int{1, 2, 8, 20}
+	lens := []int{1, 20, 2, 8}
 	n := lens[vsym.Pick("serial.len", vsymC05Serial)]
 	s := vsym.BytesN("serial", n)
 	vsym.Assume(s[0] != 0) // magnitude without leading zero (high bit may be set)
@@ -146,14 +147,24 @@ func VC05_DERvsReference() {
 	before := time.Now().UTC()
 	out, err := SignPKCS7(signer, cert, oid.oid, content)
 	vsym.Assert(err == nil, "signing succeeds")
-	now := time.Now().UTC()
-	if !vsym.Symbolic() && now.Format("060102150405") != before.Format("060102150405") {
-		return // native replay only: the wall clock crossed a second boundary during the call; nothing to compare
-	}
-	attrs := vRefSignedAttrs(oid.der, now, content)
+	// the library's own parser and verifier accept what it produced
+	p, perr := ParsePKCS7(out)
+	vsym.Assert(perr == nil, "the library parses its own SignedData")
+	vsym.Assert(p.OID.Equal(oid.oid), "content type recovered")
+	okv, verr := p.Verify(cert)
+	vsym.Assert(okv && verr == nil, "the library verifies its own SignedData")
+	// the signing time is read before the (possibly slow) signer is called
+	attrs := vRefSignedAttrs(oid.der, before, content)
 	d := sha256.Sum256(attrs)
 	sig, _ := signer.Sign(rand.Reader, d[:], crypto.SHA256)
 	want := vRefSignedData(oid, content, raw, issuer, serial, attrs, sig)
+	if !vsym.Symbolic() && !bytes.Equal(out, want) {
+		// native replay only: the library may have read the clock one second after the harness did
+		attrs = vRefSignedAttrs(oid.der, before.Add(time.Second), content)
+		d = sha256.Sum256(attrs)
+		sig, _ = signer.Sign(rand.Reader, d[:], crypto.SHA256)
+		want = vRefSignedData(oid, content, raw, issuer, serial, attrs, sig)
+	}
 	vsym.AssertBytesEq(out, want, "SignedData equals the reference DER encoding")
 	vsym.Reach("end")
 }
